@@ -16,6 +16,9 @@
  *      the encoder's difference rows are REPLACED by the given ones before the
  *      real entropy encoder sees them (all passes); decoded through the real
  *      decoder -> ok dd <..> ; out <..>
+ *  two more header fields after bufimg: sus seed -- the libjpeg decode is fed by a SUSPENDING jpeg_source_mgr:
+ *      sus 0 jpeg_mem_src, k > 0 k bytes at a time, -2 pseudo-random chunks 1..64 (seed), -3 one split at byte `seed`,
+ *      -1 every split position of the stream (small images)
  *  rmode: 0 none, 1 rows (restart_in_rows / TJPARAM_RESTARTROWS), 2 blocks (restart_interval / TJPARAM_RESTARTBLOCKS)
  *  pf   : tj: TJPF_* ; lj: 0 natural colour space for nc, 1 JCS_UNKNOWN, 2 JCS_EXT_BGR (nc=3), 3 JCS_EXT_XRGB (nc=3)
  *  scanmode (lj): 0 default single scan, 1 explicit single scan, 2 one scan per component (own psv/pt),
@@ -104,13 +107,15 @@ static JDIMENSION my_decode_mcus(j_decompress_ptr cinfo, JDIFFIMAGE diff_buf, JD
 {
   JDIMENSION got = (*orig_decode_mcus) (cinfo, diff_buf, row, col, n);
   int k;
-  if (col != 0 || got != n) hook_problem = 1;
+  /* with a suspending source a call may complete only the first `got` MCUs; the
+   * difference controller resumes at column col + got (jddiffct.c MCU_ctr) */
+  if (got > n || col + n != cinfo->MCUs_per_row) hook_problem = 1;
   for (k = 0; k < cinfo->comps_in_scan; k++) {
     jpeg_component_info *cp = cinfo->cur_comp_info[k];
-    int ci = cp->component_index, w = (int)cp->width_in_blocks, x;
+    int ci = cp->component_index, x;
     JDIFFROW r = diff_buf[ci][row];
-    if (ddn[ci] + w <= MAXPIX) for (x = 0; x < w; x++) dd[ci][ddn[ci] + x] = r[x];
-    ddn[ci] += w;
+    if (ddn[ci] + (int)got <= MAXPIX) for (x = 0; x < (int)got; x++) dd[ci][ddn[ci] + x] = r[col + x];
+    ddn[ci] += (int)got;
   }
   return got;
 }
@@ -190,50 +195,138 @@ static int lj_compress(int prec, int w, int h, int nc, int rmode, long rval, int
   return 0;
 }
 
-/* decode buf into out[][]; returns 0 ok */
+/* ---- suspending data source (libjpeg.txt "I/O suspension"): a growing window
+ * onto the in-memory stream; fill_input_buffer() returns FALSE, the application
+ * "receives" the next chunk and calls the library again. ---- */
+typedef struct {
+  struct jpeg_source_mgr pub;
+  const unsigned char *data;
+  size_t size, avail, skip_pending;
+  int mode;               /* k > 0: k bytes at a time; -2: pseudo-random 1..64; -3: split at pos, then the rest */
+  size_t pos;
+  unsigned long long lcg;
+  long suspensions;
+} chunk_src;
+static void cs_init(j_decompress_ptr cinfo) { }
+static boolean cs_fill(j_decompress_ptr cinfo) { ((chunk_src *)cinfo->src)->suspensions++; return FALSE; }
+static void cs_skip(j_decompress_ptr cinfo, long n)
+{
+  chunk_src *s = (chunk_src *)cinfo->src;
+  if (n <= 0) return;
+  if ((size_t)n > s->pub.bytes_in_buffer) { s->skip_pending += (size_t)n - s->pub.bytes_in_buffer; n = (long)s->pub.bytes_in_buffer; }
+  s->pub.next_input_byte += n; s->pub.bytes_in_buffer -= (size_t)n;
+}
+static void cs_term(j_decompress_ptr cinfo) { }
+static int cs_feed(chunk_src *s)
+{
+  size_t n, consumed;
+  if (s->avail >= s->size) return 0;
+  if (s->mode > 0) n = (size_t)s->mode;
+  else if (s->mode == -2) { s->lcg = s->lcg * 6364136223846793005ULL + 1442695040888963407ULL; n = 1 + (size_t)((s->lcg >> 33) % 64); }
+  else n = s->avail == 0 ? s->pos : s->size;
+  if (n == 0) n = 1;
+  if (n > s->size - s->avail) n = s->size - s->avail;
+  consumed = (size_t)(s->pub.next_input_byte - s->data);
+  s->avail += n;
+  s->pub.bytes_in_buffer = s->avail - consumed;
+  if (s->skip_pending) {
+    size_t k = s->skip_pending < s->pub.bytes_in_buffer ? s->skip_pending : s->pub.bytes_in_buffer;
+    s->pub.next_input_byte += k; s->pub.bytes_in_buffer -= k; s->skip_pending -= k;
+  }
+  return 1;
+}
+static int sus_mode; static size_t sus_pos; static unsigned long long sus_seed; static long sus_count;
+
+/* decode buf into out[][]; returns 0 ok.  sus_mode 0: jpeg_mem_src, else the suspending source */
 static int lj_decode(const unsigned char *buf, unsigned long size, int bufimg, int w, int h, int nc, int prec,
                      int (*out)[MAXPIX])
 {
   struct jpeg_decompress_struct d; struct jpeg_error_mgr e; void * volatile rowbuf = NULL;
-  int ci, x, y;
+  static chunk_src cs; int ci, x, y, rc; volatile int hooked = 0;
   for (ci = 0; ci < MAXC; ci++) ddn[ci] = 0;
   d.err = jpeg_std_error(&e); e.error_exit = my_exit; e.emit_message = my_emit;
-  if (setjmp(jb)) { jpeg_destroy_decompress(&d); free(rowbuf); return -1; }
+  if (setjmp(jb)) { sus_count = cs.suspensions; jpeg_destroy_decompress(&d); free(rowbuf); return -1; }
   jpeg_create_decompress(&d);
-  jpeg_mem_src(&d, buf, size);
-  jpeg_read_header(&d, TRUE);
+  if (sus_mode == 0) jpeg_mem_src(&d, buf, size);
+  else {
+    memset(&cs, 0, sizeof(cs));
+    cs.pub.init_source = cs_init; cs.pub.fill_input_buffer = cs_fill; cs.pub.skip_input_data = cs_skip;
+    cs.pub.resync_to_restart = jpeg_resync_to_restart; cs.pub.term_source = cs_term;
+    cs.data = buf; cs.size = size; cs.mode = sus_mode; cs.pos = sus_pos; cs.lcg = sus_seed;
+    cs.pub.next_input_byte = buf; cs.pub.bytes_in_buffer = 0;
+    d.src = &cs.pub;
+  }
+#define FEED() do { if (sus_mode == 0 || !cs_feed(&cs)) { last_err = -5; longjmp(jb, 1); } } while (0)
+#define HOOK() do { if (!hooked && d.entropy) { orig_decode_mcus = d.entropy->decode_mcus; \
+                    d.entropy->decode_mcus = my_decode_mcus; hooked = 1; } } while (0)
+  while (jpeg_read_header(&d, TRUE) == JPEG_SUSPENDED) FEED();
   if ((int)d.image_width != w || (int)d.image_height != h || d.num_components != nc || d.data_precision != prec ||
       !d.master->lossless) { jpeg_destroy_decompress(&d); return -2; }
   if (bufimg || jpeg_has_multiple_scans(&d)) d.buffered_image = TRUE;
-  jpeg_start_decompress(&d);
-  orig_decode_mcus = d.entropy->decode_mcus;
-  d.entropy->decode_mcus = my_decode_mcus;
+  while (!jpeg_start_decompress(&d)) { HOOK(); FEED(); }
+  HOOK();
   if (d.output_components != nc) { jpeg_destroy_decompress(&d); return -3; }
   if (d.buffered_image) {
-    while (jpeg_consume_input(&d) != JPEG_REACHED_EOI) ;
-    jpeg_start_output(&d, d.input_scan_number);
+    while ((rc = jpeg_consume_input(&d)) != JPEG_REACHED_EOI) if (rc == JPEG_SUSPENDED) FEED();
+    while (!jpeg_start_output(&d, d.input_scan_number)) FEED();
   }
   rowbuf = malloc((size_t)w * nc * sizeof(unsigned short) + 16);
   for (y = 0; y < h; y++) {
     if (prec <= 8) {
       JSAMPLE *r = (JSAMPLE *)rowbuf; JSAMPROW rp = r;
-      if (jpeg_read_scanlines(&d, &rp, 1) != 1) { last_err = -1; longjmp(jb, 1); }
+      while (jpeg_read_scanlines(&d, &rp, 1) != 1) FEED();
       for (x = 0; x < w; x++) for (ci = 0; ci < nc; ci++) out[ci][y * w + x] = r[x * nc + ci];
     } else if (prec <= 12) {
       J12SAMPLE *r = (J12SAMPLE *)rowbuf; J12SAMPROW rp = r;
-      if (jpeg12_read_scanlines(&d, &rp, 1) != 1) { last_err = -1; longjmp(jb, 1); }
+      while (jpeg12_read_scanlines(&d, &rp, 1) != 1) FEED();
       for (x = 0; x < w; x++) for (ci = 0; ci < nc; ci++) out[ci][y * w + x] = r[x * nc + ci];
     } else {
       J16SAMPLE *r = (J16SAMPLE *)rowbuf; J16SAMPROW rp = r;
-      if (jpeg16_read_scanlines(&d, &rp, 1) != 1) { last_err = -1; longjmp(jb, 1); }
+      while (jpeg16_read_scanlines(&d, &rp, 1) != 1) FEED();
       for (x = 0; x < w; x++) for (ci = 0; ci < nc; ci++) out[ci][y * w + x] = r[x * nc + ci];
     }
   }
-  if (d.buffered_image) jpeg_finish_output(&d);
-  jpeg_finish_decompress(&d);
+  if (d.buffered_image) while (!jpeg_finish_output(&d)) FEED();
+  while (!jpeg_finish_decompress(&d)) FEED();
+  sus_count = sus_mode ? cs.suspensions : 0;
   if (e.num_warnings) { jpeg_destroy_decompress(&d); free(rowbuf); return -4; }
   jpeg_destroy_decompress(&d);
   free(rowbuf);
+  return 0;
+}
+
+/* decode according to the suspension schedule of the case:
+ *   0 jpeg_mem_src; k > 0 chunks of k bytes; -2 pseudo-random chunks (seed); -3 one split at byte `seed`;
+ *   -1 EVERY split position 1..size-1 (small images): each must give the results of the unsuspended decode;
+ *      the first differing decode is the one reported */
+#define SMALLPIX 4096
+static int out0[MAXC][SMALLPIX], dd0[MAXC][SMALLPIX];
+static int decode_scheduled(const unsigned char *buf, unsigned long size, int bufimg, int w, int h, int nc, int prec,
+                            int (*out)[MAXPIX], int susmode, unsigned long long seed)
+{
+  int rc, ci, i, n = w * h; size_t p;
+  if (susmode != -1 || n > SMALLPIX) {
+    sus_mode = susmode == -1 ? 1 : susmode; sus_seed = seed; sus_pos = (size_t)seed;
+    rc = lj_decode(buf, size, bufimg, w, h, nc, prec, out);
+    sus_mode = 0;
+    return rc;
+  }
+  sus_mode = 0;
+  rc = lj_decode(buf, size, bufimg, w, h, nc, prec, out);
+  if (rc) return rc;
+  for (ci = 0; ci < nc; ci++) for (i = 0; i < n; i++) { out0[ci][i] = out[ci][i]; dd0[ci][i] = dd[ci][i]; }
+  for (p = 1; p < size; p++) {
+    int differ = 0;
+    sus_mode = -3; sus_pos = p;
+    rc = lj_decode(buf, size, bufimg, w, h, nc, prec, out);
+    sus_mode = 0;
+    if (rc) { fprintf(stderr, "split at byte %lu of %lu: decode failed\n", (unsigned long)p, size); return rc; }
+    for (ci = 0; ci < nc; ci++) {
+      if (ddn[ci] != n) differ = 1;
+      for (i = 0; i < n; i++) if (out0[ci][i] != out[ci][i] || dd0[ci][i] != dd[ci][i]) differ = 1;
+    }
+    if (differ) { fprintf(stderr, "split at byte %lu of %lu: result differs from the unsuspended decode\n", (unsigned long)p, size); return 0; }
+  }
   return 0;
 }
 
@@ -344,14 +437,15 @@ int main(void)
     {
       int prec = hd[0], w = hd[1], h = hd[2], nc = hd[3];
       int rmode = nh > 5 ? hd[5] : 0, pf = nh > 7 ? hd[7] : 0, bottomup = nh > 8 ? hd[8] : 0, pad = nh > 9 ? hd[9] : 0;
-      int scanmode = nh > 10 ? hd[10] : 0, bufimg = nh > 11 ? hd[11] : 0;
+      int scanmode = nh > 10 ? hd[10] : 0, bufimg = nh > 11 ? hd[11] : 0, susmode = nh > 12 ? hd[12] : 0;
+      unsigned long long seed = nh > 13 ? (unsigned long long)hd[13] : 0;
       long rval = nh > 6 ? hd[6] : 0;
       int bad = 0;
       if (nh < 5 || nc < 1 || nc > MAXC || w < 1 || h < 1 || (long)w * h > MAXPIX || npp < 2) { printf("?\n"); continue; }
       for (ci = 0; ci < nc; ci++) { p = parse_ints(p, plane[ci], MAXPIX, &n); if (n != w * h) bad = 1; }
       if (bad) { printf("?\n"); continue; }
       while (npp < 2 * nc) { pp[npp] = pp[npp - 2]; npp++; }
-      inject = 0;
+      inject = 0; hook_problem = 0;
       if (!strcmp(cmd, "inj")) {
         int rc;
         inject = 1;
@@ -366,9 +460,9 @@ int main(void)
       } else if (!strcmp(kind, "lj")) {
         int rc = lj_compress(prec, w, h, nc, rmode, rval, pf, scanmode, pp);
         if (rc) { printf("rej\n"); continue; }
-        rc = lj_decode(jbuf, jsize, bufimg, w, h, nc, prec, outp);
+        rc = decode_scheduled(jbuf, jsize, bufimg, w, h, nc, prec, outp, susmode, seed);
         free(jbuf); jbuf = NULL;
-        if (rc) { printf("fail decode %d %d\n", rc, last_err); continue; }
+        if (rc) { printf("fail decode %d %d (suspension schedule %d, %ld suspensions)\n", rc, last_err, susmode, sus_count); continue; }
         if (hook_problem) { printf("fail observer\n"); continue; }
         for (ci = 0; ci < nc; ci++) if (edn[ci] != w * h || ddn[ci] != w * h) bad = 1;
         if (bad) { printf("fail observer-count\n"); continue; }
@@ -379,11 +473,14 @@ int main(void)
         rc = tj_roundtrip(prec, w, h, nc, rmode, rval, pf, bottomup, pad, pp[0], pp[1], &jpg, &js, why);
         if (rc == 1) { printf("rej\n"); tj3Free(jpg); continue; }
         if (rc) { printf("fail tj %s\n", why); tj3Free(jpg); continue; }
-        rc = lj_decode(jpg, (unsigned long)js, bufimg, w, h, nc, prec, outp2);
+        rc = decode_scheduled(jpg, (unsigned long)js, bufimg, w, h, nc, prec, outp2, susmode, seed);
         tj3Free(jpg);
-        if (rc) { printf("fail decode %d %d\n", rc, last_err); continue; }
+        if (rc) { printf("fail decode %d %d (suspension schedule %d, %ld suspensions)\n", rc, last_err, susmode, sus_count); continue; }
         if (hook_problem) { printf("fail observer\n"); continue; }
         for (ci = 0; ci < nc; ci++) { if (ddn[ci] != w * h) bad = 1; for (i = 0; i < w * h; i++) if (outp[ci][i] != outp2[ci][i]) bad = 2; }
+        if (bad == 2 && susmode) {     /* report what the suspended libjpeg decode delivered */
+          printf("ok ed - ; dd"); print_group(dd, nc, w * h); printf(" ; out"); print_group(outp2, nc, w * h); printf("\n"); continue;
+        }
         if (bad) { printf("fail %s\n", bad == 1 ? "observer-count" : "tj3Decompress-differs-from-jpeg_read_scanlines"); continue; }
         printf("ok ed - ; dd"); print_group(dd, nc, w * h); printf(" ; out"); print_group(outp, nc, w * h); printf("\n");
       } else printf("?\n");
